@@ -399,6 +399,13 @@ class Parser:
         )
         right = self.parse_filter_expression(stream, precedence=self.PRECEDENCE_PREFIX)
         self._raise_for_uncompared_value_function(right, tok)
+        if isinstance(right, FilterExpressionLiteral):
+            # `!(true)`: a parenthesized literal is not a logical expression.
+            raise JSONPathSyntaxError(
+                "filter expression literals outside of "
+                "function expressions must be compared",
+                token=right.token,
+            )
         return PrefixExpression(tok, operator="!", right=right)
 
     def parse_infix_expression(
